@@ -54,6 +54,7 @@ CONSTANTS Dev,        \* set of deviations switched on
 
 VARIABLES stage,   \* "init" "kind" "case" "placed"
           k,       \* index of the kind
+          e,       \* its table entry Kinds[k] (kept in the state only so that TLC need not re-evaluate the table)
           c,       \* the configuration (a Schema case)
           addr,    \* addr[i]: the cell of operand i
           mem,     \* mem[cell]: the value in the cell (detached cells keep their value)
@@ -62,12 +63,12 @@ VARIABLES stage,   \* "init" "kind" "case" "placed"
           out,     \* answer of the last Succs() call
           last,    \* last call: [op, slot]
           steps
-vars == <<stage, k, c, addr, mem, cacheS, cacheO, out, last, steps>>
+vars == <<stage, k, e, c, addr, mem, cacheS, cacheO, out, last, steps>>
 
 N == Len(c.ops)
 Val(i) == mem[addr[i]]
 Other(i) == "o" \o ToString(i)
-E == Kinds[k]
+E == e
 
 Hidden(i)  == "hide-bundles" \in Dev /\ c.ops[i].role = "bundle input"
 Wrapped(i) == "wrap-args" \in Dev /\ c.wrap /\ c.ops[i].role = "arg"
@@ -86,22 +87,22 @@ Dedup(s) == IF s = <<>> THEN <<>>
             ELSE LET r == Dedup(SubSeq(s, 1, Len(s) - 1)) x == s[Len(s)]
                  IN IF \E j \in 1..Len(r) : r[j] = x THEN r ELSE Append(r, x)
 
-Init == /\ stage = "init" /\ k = 0 /\ c = <<>> /\ addr = <<>> /\ mem = <<>>
+Init == /\ stage = "init" /\ k = 0 /\ e = <<>> /\ c = <<>> /\ addr = <<>> /\ mem = <<>>
         /\ cacheS = [set |-> FALSE, v |-> <<>>] /\ cacheO = [set |-> FALSE, v |-> <<>>] /\ out = <<>>
         /\ last = [op |-> "none", slot |-> 0] /\ steps = 0
 
-PickKind == /\ stage = "init" /\ k' \in 1..NKinds /\ stage' = "kind"
+PickKind == /\ stage = "init" /\ k' \in 1..NKinds /\ e' = Kinds[k'] /\ stage' = "kind"
             /\ UNCHANGED <<c, addr, mem, cacheS, cacheO, out, last, steps>>
 PickCase == /\ stage = "kind"
             /\ c' \in {x \in Cases(E) : x.fam \in {"config", "wrap"} /\ Len(x.ops) > 0 /\ Len(x.ops) <= MaxOps}
-            /\ stage' = "case" /\ UNCHANGED <<k, addr, mem, cacheS, cacheO, out, last, steps>>
+            /\ stage' = "case" /\ UNCHANGED <<k, e, addr, mem, cacheS, cacheO, out, last, steps>>
 Place == /\ stage = "case"
          /\ addr' = [i \in 1..N |-> i]
          /\ \E i \in 1..N : \E j \in i..N :
               mem' = [x \in 1..N |-> IF x = i \/ x = j THEN "a" ELSE Other(x)]
-         /\ stage' = "placed" /\ UNCHANGED <<k, c, cacheS, cacheO, out, last, steps>>
+         /\ stage' = "placed" /\ UNCHANGED <<k, e, c, cacheS, cacheO, out, last, steps>>
 
-Call == stage = "placed" /\ steps < MaxCalls /\ steps' = steps + 1 /\ UNCHANGED <<stage, k>>
+Call == stage = "placed" /\ steps < MaxCalls /\ steps' = steps + 1 /\ UNCHANGED <<stage, k, e>>
 
 QuerySuccs ==
   /\ Call /\ E.cat = "term"
